@@ -228,8 +228,46 @@ fn typed_record(rng: &mut Rng) -> Vec<u8> {
         (33, &[0, 1, 0, 1, 0, 80, 1, b't', 0]),
         (63, &[0, 0, 0, 1, 1, 1, 9, 9, 9, 9, 9, 9, 9, 9, 9, 9, 9, 9]),
     ];
-    let (t, tpl) = templates[rng.below(templates.len() as u64) as usize];
+    let (mut t, tpl) = templates[rng.below(templates.len() as u64) as usize];
     let mut rd = tpl.to_vec();
+    let lens = [0usize, 1, 2, 3, 4, 5, 7, 8, 9, 12, 15, 16, 17, 20, 31, 32, 33, 40, 41];
+    match rng.below(4) {
+        0 => {
+            // SVCB / HTTPS with one parameter: every known key, boundary lengths
+            t = if rng.chance(1, 2) { 64 } else { 65 };
+            let key = rng.below(11) as u16;
+            let l = lens[rng.below(lens.len() as u64) as usize];
+            rd = vec![0, 1, 0];
+            rd.extend(key.to_be_bytes());
+            rd.extend((l as u16).to_be_bytes());
+            rd.extend(rng.bytes(l));
+        }
+        1 => {
+            // OPT with one option: every option type, boundary lengths; the
+            // client-subnet grid family x prefixes x address octets
+            t = 41;
+            let code = *rng.pick(&[3u16, 5, 6, 7, 8, 8, 8, 9, 10, 11, 12, 13, 14, 15, 65001]);
+            let data: Vec<u8> = if code == 8 {
+                let fam = rng.below(4) as u16;
+                let src = *rng.pick(&[0u8, 1, 24, 32, 33, 64, 128, 129, 255]);
+                let scope = *rng.pick(&[0u8, 24, 33, 200]);
+                let need = (src as usize + 7) / 8;
+                let n = (need + rng.below(3) as usize).saturating_sub(1);
+                let mut d = fam.to_be_bytes().to_vec();
+                d.push(src);
+                d.push(scope);
+                d.extend(rng.bytes(n));
+                d
+            } else {
+                let l = lens[rng.below(lens.len() as u64) as usize];
+                rng.bytes(l)
+            };
+            rd = code.to_be_bytes().to_vec();
+            rd.extend((data.len() as u16).to_be_bytes());
+            rd.extend(data);
+        }
+        _ => {}
+    }
     for _ in 0..rng.below(3) {
         let n = rd.len();
         match rng.below(6) {
